@@ -8,6 +8,18 @@ VERIF = os.path.dirname(os.path.dirname(os.path.abspath(__file__)))
 
 # property -> (technique, level text, level note, design ref)
 CLAIMED = {
+    "C10": (
+        "TLC refinement check SlotsImpl.tla => Slots.tla (+ bug-switch counterexamples); TLC-generated graph-walk "
+        "cases replayed on the real ChannelSlots and end to end; TLC trace validation against Slots.tla",
+        "TLC proves for channel_max 3 and 4 (thorough 5) that the implementation-shaped allocator model (counter, "
+        "ordered freed set) refines the property-level allocator for all operation sequences, and that each of the "
+        "three pre-fix behaviours breaks it. The code is bound by replaying, for every transition of every "
+        "reachable model state, the generated operation sequence on the real ChannelSlots and through "
+        "Connection::open_channel/Channel::close/server Channel.Close (mock transport), plus random walks and the "
+        "complete 65535/65534 id space; every result is validated by TLC against Slots.tla.",
+        "Trusted: TLC, mock transport/broker, 5 s (20 s) hang limit. open(None) may return any free id. The "
+        "65533 consecutive allocations of the boundary scenario are summarised by the driver as id runs.",
+        "DESIGN.md §4 C10"),
     "C14": (
         "TLC model checking of SmootherImpl.tla (iterator-step model, invariants ImplPrefix/ImplExact/NoLeak) + "
         "TLC trace validation of the real ConfirmSmoother against Smoother.tla on every well-formed history",
